@@ -75,6 +75,23 @@ def deduplicate_attrs(known, mapping):
     return variables | valmap(compose_left(second, first), attrs)
 
 
+def flatten_nested(mapping):
+    # per-line sub-structures (e.g. `platform_velocity`) arrive as lists of dicts:
+    # merge them into one list per component, named `<field>_<component>`
+    def _flatten(key, value):
+        if not isinstance(value, list) or not value or not isinstance(value[0], dict):
+            return {key: value}
+
+        merged = merge_with(list, *value)
+        return flatten_nested({f"{key}_{k}": v for k, v in merged.items()})
+
+    flattened = {}
+    for key, value in mapping.items():
+        flattened |= _flatten(key, value)
+
+    return flattened
+
+
 def transform_line_metadata(metadata):
     ignored = [
         "preamble",
@@ -112,6 +129,7 @@ def transform_line_metadata(metadata):
         curry(starcall, curry(merge_with, list)),
         curry(remove_spares),
         curry(dissoc, ignored),
+        curry(flatten_nested),
         curry(valmap, compose_left(separate_attrs, curry(cons, "rows"), tuple)),
         curry(deduplicate_attrs, known_attrs),
         curry(apply_overrides, dtype_overrides),
